@@ -239,6 +239,71 @@ theorem readDict_write (force : Nat → Nat → Bool) (h : List Str) (rows : Lis
     cases r <;> simp_all
   rw [this]
 
+/-! ### the reader never fails on lines cut the way the library's handles cut them -/
+
+theorem step_some_ok (p : P) (c : Nat) (h : p.st ≠ .eatCrnl) : ∃ q, step p (some c) = .ok q := by
+  unfold step
+  cases hst : p.st <;> simp_all <;> (try split) <;> (try split) <;> (try split) <;> exact ⟨_, rfl⟩
+
+theorem step_none_ok (p : P) : ∃ q, step p none = .ok q ∧ q.st ≠ .eatCrnl := by
+  unfold step
+  cases hst : p.st <;> simp [emit, saveField, hst]
+
+theorem step_some_eat (p q : P) (c : Nat) (h : p.st ≠ .eatCrnl) (hs : step p (some c) = .ok q) (hq : q.st = .eatCrnl) :
+    isNl c = true := by
+  by_cases hnl : isNl c = true
+  · exact hnl
+  · exfalso
+    have hf : isNl c = false := by simpa using hnl
+    unfold step at hs
+    cases hst : p.st <;> simp only [hst, hf, startFieldStep, Bool.false_eq_true, if_false] at hs
+    all_goals (repeat' split at hs)
+    all_goals (first | (injection hs with hs; subst hs; simp [addChar, saveField] at hq; done) | (injection hs with hs; subst hs; simp [addChar, saveField] at hq; exact h hq) | exact h hst)
+
+/-- **No `csv.Error` on any text.** Fed the physical lines of ANY text as a `newline=''` handle yields them, the reader's state
+machine never reaches its one error ("new-line character seen in unquoted field"): a CR or LF outside quotes is always
+followed by the end of its line or by the LF of a CR LF. So `from_csv` cannot fail in the csv layer, whatever the file holds. -/
+theorem run_events_ok (t : Str) : ∀ (p : P), p.st ≠ .eatCrnl → ∃ q, run p (events t) = .ok q := by
+  induction h : t.length using Nat.strongRecOn generalizing t with
+  | _ n ih =>
+    intro p hp
+    match t, h with
+    | [], _ => exact ⟨p, rfl⟩
+    | [c], _ =>
+      obtain ⟨p1, h1⟩ := step_some_ok p c hp
+      obtain ⟨p2, h2, _⟩ := step_none_ok p1
+      exact ⟨p2, by simp [events, run, h1, h2]⟩
+    | c :: d :: rest, hlen =>
+      obtain ⟨p1, h1⟩ := step_some_ok p c hp
+      by_cases hle : lineEndAfter c (some d) = true
+      · obtain ⟨p2, h2, h2'⟩ := step_none_ok p1
+        obtain ⟨q, hq⟩ := ih (d :: rest).length (by simp at hlen ⊢; omega) (d :: rest) rfl p2 h2'
+        exact ⟨q, by simp only [events, hle, if_true]; rw [run_cons_ok _ h1, run_cons_ok _ h2]; exact hq⟩
+      · by_cases he : p1.st = .eatCrnl
+        · -- then `c` is a line-break character that does not end its line: `c` = CR and `d` = LF
+          have hnl := step_some_eat p p1 c hp h1 he
+          have hd : d = lf := by
+            simp [lineEndAfter, isNl] at hle hnl
+            rcases hnl with rfl | rfl
+            · exact hle.2 rfl
+            · exact absurd rfl hle.1
+          subst hd
+          have h3 : step p1 (some lf) = .ok p1 := by simp [step, he, isNl, lf]
+          obtain ⟨p2, h2, h2'⟩ := step_none_ok p1
+          obtain ⟨q, hq⟩ := ih rest.length (by simp at hlen ⊢; omega) rest rfl p2 h2'
+          refine ⟨q, ?_⟩
+          have hle' : lineEndAfter c (some lf) = false := by simpa using hle
+          simp only [events, hle', Bool.false_eq_true, if_false]
+          rw [run_cons_ok _ h1, events_lf, run_cons_ok _ h3, run_cons_ok _ h2]
+          exact hq
+        · obtain ⟨q, hq⟩ := ih (d :: rest).length (by simp at hlen ⊢; omega) (d :: rest) rfl p1 he
+          have hle' : lineEndAfter c (some d) = false := by simpa using hle
+          exact ⟨q, by simp only [events, hle', Bool.false_eq_true, if_false]; rw [run_cons_ok _ h1]; exact hq⟩
+
+theorem readAll_total (t : Str) : ∃ rs, readAll t = .ok rs := by
+  obtain ⟨q, hq⟩ := run_events_ok t {} (by decide)
+  exact ⟨finish q, by simp [readAll, hq]⟩
+
 /-! ### physical lines -/
 
 theorem flatten_splitLinesAux (acc t : Str) : (splitLinesAux acc t).flatten = acc ++ t := by
